@@ -85,7 +85,9 @@ def tx_op(rng, n, darts):
         return f"wa {rng.choice([1, 2, 3])} {l} {rng.randint(1, 99)}"
     if k < 0.97:
         return f"eid {l}"
-    return f"beta {rng.randint(0, 2)} {l}"
+    # accessors a coverage measurement (notes/TIECOV.md) showed no stream executed transactionally
+    return rng.choice([f"beta {rng.randint(0, 2)} {l}", f"isun {l}", f"xv {l}", f"xa {rng.choice([1, 2, 3])} {l}",
+                       f"ra {rng.choice([1, 2, 3])} {l}"])
 
 
 def valid_topo_ops(b0, b1, b2, darts):
@@ -278,7 +280,12 @@ def programs3(count, rng):
             pool = touched + touched + darts if touched else darts
             l, r = rng.choice(pool), rng.choice(pool)
             k = rng.random()
-            if k < 0.22:
+            if rng.random() < 0.15:
+                # vertex / attribute accessors of CMap3 inside the program (read, write, remove; removal flag; one image)
+                st = rng.choice([1, 2, 3, 4, 5])
+                op = rng.choice([f"rv {l}", f"xv {l}", f"wv {l} {gens.dy(rng)} {gens.dy(rng)} {gens.dy(rng)}", f"ra {st} {l}",
+                                 f"wa {st} {l} {rng.randint(1, 99)}", f"xa {st} {l}", f"isun {l}", f"beta {rng.randint(0, 3)} {l}"])
+            elif k < 0.22:
                 op = f"{rng.choice(['link', 'sew'])} 3 {l} {r}" if l != r else f"unlink 3 {l}"
             elif k < 0.44:
                 op = f"{rng.choice(['link', 'sew'])} 1 {l} {r}"
